@@ -447,7 +447,9 @@ class BalWorld(object):
           REC.probe('node_resurrected')
       elif k in ('join', 'leave'):
         i = op['member'] % self.n
-        m = self.members[i]
+        # like the ZooKeeper server set, deliver a freshly built (equal, not
+        # identical) member object with every notification
+        m = ScalesUriParser.Server(Endpoint('m%d' % i, 2000 + i))
         if not self.serverset.loaded:
           REC.probe('notification_before_init')
         if k == 'join':
